@@ -35,8 +35,15 @@ func (iterator *Iterator[T]) Next() bool {
 	}
 	if iterator.index == 0 {
 		iterator.element = iterator.list.first
-	} else {
+	} else if iterator.element != nil {
 		iterator.element = iterator.element.next
+	}
+	if iterator.element == nil {
+		// The list was modified since the iterator last moved: find the element at this position again.
+		iterator.element = iterator.list.first
+		for i := 0; i < iterator.index; i++ {
+			iterator.element = iterator.element.next
+		}
 	}
 	return true
 }
